@@ -25,10 +25,56 @@ func instrIndex(i ssa.Instruction) int {
 
 // Dominates reports whether a is executed before b on every path reaching b.
 func Dominates(a, b ssa.Instruction) bool {
+	if a == nil || b == nil {
+		return false
+	}
+	if a.Parent() == b.Parent() {
+		return dominatesRaw(a, b)
+	}
+	return domDeep(a, b, 0)
+}
+
+func dominatesRaw(a, b ssa.Instruction) bool {
 	if a.Block() == b.Block() {
 		return instrIndex(a) < instrIndex(b)
 	}
 	return a.Block().Dominates(b.Block())
+}
+
+// domDeep: dominance across the boundary of an eligible helper.
+func domDeep(a, b ssa.Instruction, depth int) bool {
+	fa, fb := a.Parent(), b.Parent()
+	if fa == fb {
+		return dominatesRaw(a, b)
+	}
+	if depth > 4 {
+		return false
+	}
+	// b sits in a helper: every call site of that helper is dominated by a
+	if Eligible(fb) {
+		sites := sitesOf(fb)
+		all := len(sites) > 0
+		for _, s := range sites {
+			if !(s.Parent() == fa && dominatesRaw(a, s)) && !domDeep(a, s, depth+1) {
+				all = false
+			}
+		}
+		if all {
+			return true
+		}
+	}
+	// a sits in a helper that always executes it, and a call of that helper dominates b
+	if Eligible(fa) && witnessPathRaw(fa, nil, IsReturn, func(i ssa.Instruction) bool { return i == a }) == nil {
+		for _, s := range sitesOf(fa) {
+			if _, isDefer := s.(*ssa.Defer); isDefer {
+				continue
+			}
+			if (s.Parent() == fb && dominatesRaw(s, b)) || domDeep(s, b, depth+1) {
+				return true
+			}
+		}
+	}
+	return false
 }
 
 // AllInstrs visits every instruction of fn (not of its closures).
@@ -144,6 +190,16 @@ func ExistsPath(fn *ssa.Function, from ssa.Instruction, target, avoid func(ssa.I
 
 // WitnessPath is ExistsPath returning the target instruction reached.
 func WitnessPath(fn *ssa.Function, from ssa.Instruction, target, avoid func(ssa.Instruction) bool) ssa.Instruction {
+	q := &deepQ{target: target, avoid: avoid, mayMemo: map[*ssa.Function]int{}, blockMemo: map[*ssa.Function]int{}}
+	var av func(ssa.Instruction) bool
+	if avoid != nil {
+		av = q.deepAvoid
+	}
+	return witnessPathRaw(fn, from, q.deepTarget, av)
+}
+
+// witnessPathRaw is the intra-procedural search.
+func witnessPathRaw(fn *ssa.Function, from ssa.Instruction, target, avoid func(ssa.Instruction) bool) ssa.Instruction {
 	if fn == nil || len(fn.Blocks) == 0 {
 		return nil
 	}
@@ -235,13 +291,57 @@ func GuardsOfBlock(b *ssa.BasicBlock) []Atom {
 	return out
 }
 
-func Guards(i ssa.Instruction) []Atom { return GuardsOfBlock(i.Block()) }
+func Guards(i ssa.Instruction) []Atom {
+	own := GuardsOfBlock(i.Block())
+	if bs, ok := i.(blockStart); ok {
+		_ = bs
+		return own
+	}
+	return append(own, contextAtoms(i.Parent(), 0)...)
+}
+
+var ctxBusy = map[*ssa.Function]bool{}
+
+// contextAtoms: the conditions common to all call sites of an eligible helper.
+func contextAtoms(f *ssa.Function, depth int) []Atom {
+	if depth > 4 || ctxBusy[f] || !Eligible(f) {
+		return nil
+	}
+	ctxBusy[f] = true
+	defer delete(ctxBusy, f)
+	var common []Atom
+	for k, s := range sitesOf(f) {
+		g := append(GuardsOfBlock(s.Block()), contextAtoms(s.Parent(), depth+1)...)
+		if k == 0 {
+			common = g
+			continue
+		}
+		have := map[string]bool{}
+		for _, a := range g {
+			have[AtomString(a)] = true
+		}
+		var keep []Atom
+		for _, a := range common {
+			if have[AtomString(a)] {
+				keep = append(keep, a)
+			}
+		}
+		common = keep
+	}
+	return common
+}
 
 // AtomStrings renders the atoms in normalised textual form (sorted).
 func AtomStrings(atoms []Atom) []string {
 	var out []string
+	seen := map[string]bool{}
 	for _, a := range atoms {
-		out = append(out, AtomString(a))
+		for _, s := range expandAtomConj(a, 0) {
+			if !seen[s] {
+				seen[s] = true
+				out = append(out, s)
+			}
+		}
 	}
 	sort.Strings(out)
 	return out
@@ -253,8 +353,13 @@ var negOp = map[token.Token]token.Token{
 	token.GTR: token.LEQ, token.LEQ: token.GTR,
 }
 
-// AtomString renders one atom, polarity folded into the operator.
+// AtomString renders one atom (boolean helpers expanded), polarity folded into the operator.
 func AtomString(a Atom) string {
+	return strings.Join(expandAtomConj(a, 0), " ∧ ")
+}
+
+// atomStringRaw renders one atom without helper expansion.
+func atomStringRaw(a Atom) string {
 	v, pol := a.Cond, a.Pol
 	for {
 		if u, ok := v.(*ssa.UnOp); ok && u.Op == token.NOT {
@@ -302,8 +407,8 @@ func swapOp(op token.Token) token.Token {
 
 // HasAtom reports whether some rendered atom satisfies pred.
 func HasAtom(atoms []Atom, pred func(s string) bool) bool {
-	for _, a := range atoms {
-		if pred(AtomString(a)) {
+	for _, s := range AtomStrings(atoms) {
+		if pred(s) {
 			return true
 		}
 	}
@@ -325,7 +430,7 @@ func desc(v ssa.Value, depth int) string {
 	case nil:
 		return "<nil>"
 	case *ssa.Parameter:
-		return x.Name()
+		return paramDesc(x, depth)
 	case *ssa.FreeVar:
 		return x.Name()
 	case *ssa.Const:
@@ -403,6 +508,9 @@ func desc(v ssa.Value, depth int) string {
 		}
 		return s
 	case *ssa.Call:
+		if s, ok := callProjection(x, depth); ok {
+			return s
+		}
 		var args []string
 		for _, a := range Args(x) {
 			args = append(args, desc(a, depth+1))
@@ -806,7 +914,44 @@ func BranchOn(fn *ssa.Function, want ...string) (iff *ssa.If, t, f *ssa.BasicBlo
 // each incoming edge contributes its own conjunction (depth-limited; back
 // edges are ignored).
 func PathConds(b *ssa.BasicBlock) [][]string {
+	return pathCondsCtx(b, 0)
+}
+
+func pathCondsNoCtx(b *ssa.BasicBlock) [][]string {
 	return pathConds(b, map[*ssa.BasicBlock]bool{}, 0)
+}
+
+var pcBusy = map[*ssa.Function]bool{}
+
+// pathCondsCtx: own path conditions combined with those of the call sites of an eligible helper.
+func pathCondsCtx(b *ssa.BasicBlock, depth int) [][]string {
+	own := pathCondsNoCtx(b)
+	f := b.Parent()
+	if depth > 3 || pcBusy[f] || !Eligible(f) {
+		return own
+	}
+	pcBusy[f] = true
+	defer delete(pcBusy, f)
+	var ctx [][]string
+	for _, s := range sitesOf(f) {
+		ctx = append(ctx, pathCondsCtx(s.Block(), depth+1)...)
+	}
+	if len(ctx) == 0 || len(ctx)*len(own) > 256 {
+		return own
+	}
+	var out [][]string
+	seen := map[string]bool{}
+	for _, o := range own {
+		for _, c := range ctx {
+			conj := uniqSorted(append(append([]string{}, o...), c...))
+			k := strings.Join(conj, " && ")
+			if !seen[k] {
+				seen[k] = true
+				out = append(out, conj)
+			}
+		}
+	}
+	return out
 }
 
 func pathConds(b *ssa.BasicBlock, onPath map[*ssa.BasicBlock]bool, depth int) [][]string {
@@ -824,19 +969,20 @@ func pathConds(b *ssa.BasicBlock, onPath map[*ssa.BasicBlock]bool, depth int) []
 		if onPath[p] || b.Dominates(p) {
 			continue // back edge
 		}
-		var edge []string
+		edges := [][]string{{}}
 		if len(p.Instrs) > 0 {
 			if iff, ok := p.Instrs[len(p.Instrs)-1].(*ssa.If); ok && p.Succs[0] != p.Succs[1] {
-				edge = append(edge, AtomString(Atom{iff.Cond, p.Succs[0] == b}))
+				edges = expandAtomDNF(Atom{iff.Cond, p.Succs[0] == b}, 0)
 			}
 		}
 		for _, conj := range pathConds(p, onPath, depth+1) {
-			c := append(append([]string{}, conj...), edge...)
-			sort.Strings(c)
-			k := strings.Join(c, " && ")
-			if !seen[k] {
-				seen[k] = true
-				out = append(out, c)
+			for _, edge := range edges {
+				c := uniqSorted(append(append([]string{}, conj...), edge...))
+				k := strings.Join(c, " && ")
+				if !seen[k] {
+					seen[k] = true
+					out = append(out, c)
+				}
 			}
 		}
 		if len(out) > 256 {
